@@ -13,6 +13,12 @@ for m in sorted(glob.glob(os.path.join(os.path.dirname(__file__), "..", "seeded"
             title = line
             break
     checks = j.get("checks", {})
+    re_ = j.get("recheck", {}).get("checks")
+    first_res = "; ".join(f"{c}: {'caught' if v['caught'] else 'MISSED'}" for c, v in checks.items())
+    if re_ is not None and any(not v["caught"] for v in checks.values()):
+        after = "; ".join(f"{c}: {'caught' if v['caught'] else 'still missed'}" + (f" — `{v['first'][:80]}`" if v.get('first') else "") for c, v in re_.items())
+        rows.append((j["id"], ", ".join(j.get("files_touched", [])), title[:110], "yes" if j.get("confirmed") else "no", first_res + " → after strengthening: " + after))
+        continue
     res = "; ".join(f"{c}: {'caught' if v['caught'] else 'MISSED'}" + (f" — `{v['first'][:90]}`" if v.get('first') else "") for c, v in checks.items())
     rows.append((j["id"], ", ".join(j.get("files_touched", [])), title[:110], "yes" if j.get("confirmed") else "no", res))
 print("| id | files | change (from its README) | confirmed (suite passes, demo fails only with it) | checks (quick tier, seed 1) |")
